@@ -37,7 +37,17 @@ CCases == {[side |-> "C", c |-> c, used |-> n + d, n |-> n,
 CloseCases == {[side |-> "X", c |-> c, used |-> IF w \in {"Write", "WriteWait"} THEN Size ELSE 0, n |-> 1,
                 waits |-> TRUE, missing |-> 0, waiter |-> w] :
                  c \in {0, 5000}, w \in {"Read", "ReadPeek", "ReadWait", "Write", "WriteWait"}}
-Cases == {x \in PCases \cup CCases : x.used >= 0 /\ x.used <= Size} \cup CloseCases
+\* The same for the broadcast that follows a commit: every committing call (Write, WriteCommit towards the consumer;
+\* ReadCommit, Read towards the producer) stores the cursor and then takes the other side's mutex for its broadcast
+\* (Ring!...B1 steps are enabled only when that mutex is free).  A waiter that tested the cursor before the store and holds
+\* the mutex is inside Wait before the broadcast happens, so the broadcast reaches it: it returns with the data / the room.
+WakeCases == {[side |-> "Y", c |-> c, used |-> IF w \in {"Write", "WriteWait"} THEN Size ELSE 0, n |-> 16,
+               waits |-> TRUE, missing |-> 16, waiter |-> w, committer |-> k] :
+                c \in {0, 5000},
+                w \in {"Read", "ReadPeek", "ReadWait", "Write", "WriteWait"},
+                k \in {"Write", "WriteCommit", "ReadCommit", "Read"}}
+WakeOK(x) == (x.waiter \in {"Read", "ReadPeek", "ReadWait"}) <=> (x.committer \in {"Write", "WriteCommit"})
+Cases == {x \in PCases \cup CCases : x.used >= 0 /\ x.used <= Size} \cup CloseCases \cup {x \in WakeCases : WakeOK(x)}
 
 VARIABLE st
 Init == st \in Cases
@@ -45,6 +55,6 @@ Next == UNCHANGED st
 Spec == Init /\ [][Next]_st
 
 \* the boundary is where the enumeration says it is: a call waits exactly when it is short, by exactly the missing bytes
-Boundary == st.side = "X" \/ ((st.waits <=> st.missing > 0) /\ st.missing <= 1)
+Boundary == st.side \in {"X", "Y"} \/ ((st.waits <=> st.missing > 0) /\ st.missing <= 1)
 Emit == PrintT(ToJson(st))
 =============================================================================
